@@ -152,7 +152,7 @@ func runSelftest(repo string, args []string) int {
 		todo = append(todo, m)
 	}
 	res := make([]selfResult, len(todo))
-	sem := make(chan struct{}, 6)
+	sem := make(chan struct{}, 10)
 	var wg sync.WaitGroup
 	for i, m := range todo {
 		wg.Add(1)
